@@ -84,6 +84,7 @@ type LCfg struct {
 	POriginVar        int // an amount comes from balance()/overdraft()/meta()
 	PPortionVar       int
 	PRemaining        int
+	PRemAnywhere      int // percent of allotments with `remaining` whose remaining clause is moved to a random position (0: always last)
 	PNegBal           int  // a starting balance is negative (0 = default mix)
 	PAbsent           int  // a starting balance is absent (default 16)
 	BigLiterals       bool // numbers beyond int64 may be written as literals
@@ -391,10 +392,15 @@ func (g *lgen) portions(k int) []Allot {
 	parts[k-1] = left
 	out := make([]Allot, k)
 	useRem := g.pct(g.cfg.PRemaining)
+	remPos := k - 1
+	if useRem && g.cfg.PRemAnywhere > 0 && g.pct(g.cfg.PRemAnywhere) {
+		remPos = g.r.Intn(k)
+		parts[remPos], parts[k-1] = parts[k-1], parts[remPos]
+	}
 	for i := range parts {
 		p := big.NewRat(parts[i], den)
 		switch {
-		case useRem && i == k-1:
+		case useRem && i == remPos:
 			out[i] = &AllotRemaining{}
 		case g.pct(g.cfg.PPortionVar):
 			key := p.String()
